@@ -75,6 +75,9 @@ def generate(rng, tier, index):
         if rng.uniform() < 0.5:
             g["sigma_end"] = float(rng.uniform(0.8, 1.5)) * (4.0 * np.log(1e6) / (2 * 376.730313668 * th[f] * specgen.SPACING))
         grading[f] = g
+    if rng.uniform() < 0.3:  # a plain (non-CFS) layer: no complex frequency shift at all
+        for f in specgen.FACES:
+            grading[f]["alpha_start"], grading[f]["alpha_end"] = 0.0, 0.0
     via_config = bool(rng.uniform() < 0.5)
     # one scene in three runs 2.5 x longer: a layer that is unstable only at late times must still be quiet then
     if rng.uniform() < 0.34:
@@ -145,6 +148,7 @@ def execute(spec):
     stats["probe_layers_via_boundary_config"] = int(bool(spec.get("via_config")))
     stats["probe_explicit_kappa"] = int(any("kappa_end" in g for g in spec.get("grading", {}).values()))
     stats["probe_explicit_sigma"] = int(any("sigma_end" in g for g in spec.get("grading", {}).values()))
+    stats["probe_alpha_zero"] = int(any(g.get("alpha_start") == 0.0 for g in spec.get("grading", {}).values()))
     stats["probe_long_run"] = int(spec["steps"] > 1.5 * (spec["off_step"] + 1) and spec["steps"] > 900)
     stats["probe_thick_layer_ge16"] = int(max(spec["thickness"].values()) >= 16)
     sig = specgen.signature(spec["source_kind"], spec["source"].get("polarization"), spec["source"].get("direction"), min(spec["thickness"].values()) // 4, max(spec["thickness"].values()) // 4,
